@@ -80,6 +80,18 @@ var lastKinds = []lastKind{
 	{name: "for-trivial-cond-break", mk: func(id *int) []*Stmt {
 		return []*Stmt{{K: "decl", Name: "j", E: lit(0)}, {K: "for", Body: []*Stmt{evS(nid(id)), {K: "incdec", Name: "j", Op: "++"}, {K: "if", E: cmp(">", v("j"), lit(1)), Body: []*Stmt{{K: "break"}}}}}}
 	}},
+	{name: "for-trivial-break-only-in-else-if", mk: func(id *int) []*Stmt {
+		return []*Stmt{{K: "decl", Name: "j", E: lit(0)}, {K: "for", Body: []*Stmt{evS(nid(id)), {K: "incdec", Name: "j", Op: "++"},
+			{K: "if", E: cmp("<", v("j"), lit(0)), Body: []*Stmt{evS(nid(id))}, ElseIf: &Stmt{K: "if", E: cmp(">", v("j"), lit(1)), Body: []*Stmt{{K: "break"}}}}}}}
+	}},
+	{name: "for-trivial-break-only-in-else", mk: func(id *int) []*Stmt {
+		return []*Stmt{{K: "decl", Name: "j", E: lit(0)}, {K: "for", Body: []*Stmt{evS(nid(id)), {K: "incdec", Name: "j", Op: "++"},
+			{K: "if", E: cmp("<", v("j"), lit(2)), Body: []*Stmt{evS(nid(id))}, HasElse: true, Else: []*Stmt{{K: "break"}}}}}}
+	}},
+	{name: "for-trivial-break-in-nested-block", mk: func(id *int) []*Stmt {
+		return []*Stmt{{K: "decl", Name: "j", E: lit(0)}, {K: "for", Body: []*Stmt{evS(nid(id)), {K: "incdec", Name: "j", Op: "++"},
+			{K: "block", Body: []*Stmt{{K: "if", E: cmp(">", v("j"), lit(1)), Body: []*Stmt{{K: "block", Body: []*Stmt{{K: "break"}}}}}}}}}}
+	}},
 	{name: "for-yield", yields: true, mk: func(id *int) []*Stmt {
 		return []*Stmt{{K: "for", Init: &Stmt{K: "decl", Name: "j", E: lit(0)}, E: cmp("<", v("j"), lit(2)), Post: &Stmt{K: "incdec", Name: "j", Op: "++"}, Body: []*Stmt{evS(nid(id)), yS(bin("+", lit(40), v("j")))}}}
 	}},
